@@ -537,12 +537,8 @@ def r10_2(ctx, lc: LruClass) -> None:
     u = lc.call
     cfg = cfg_of(u)
     init = lc.info.methods["__init__"]
-    od = False
-    for n in own_nodes(init.node):
-        if isinstance(n, (ast.Assign, ast.AnnAssign)):
-            tgt = n.targets[0] if isinstance(n, ast.Assign) else n.target
-            if lc.is_self_attr(tgt, lc.cache) and isinstance(n.value, ast.Call) and norm(n.value.func).endswith("OrderedDict"):
-                od = True
+    held = lc.field_inits().get(lc.cache)
+    od = isinstance(held, ast.Call) and norm(held.func).endswith("OrderedDict")
     ctx.check(od, "R10.2", init, f"self.{lc.cache}", "the bounded cache keeps its entries in an OrderedDict")
     insertion = "right"  # d[k] = v on an OrderedDict appends at the end
     refresh: List[str] = []
@@ -621,8 +617,8 @@ def r10_10(ctx, lc: LruClass, rid: str = "R10.10") -> None:
                                   edge_ok=lambda a, lab, b: lab not in ("e", "p"))
                 before = None
                 if after is not None:
-                    before = next((p_ for p_ in (find_path(s0, lambda x: x is mut, avoid=lambda x: x in resets,
-                                                           edge_ok=lambda a, lab, b: lab not in ("e", "p"))
+                    # (a change may sit in a handler - the miss path runs in ``except KeyError`` -: every edge counts here)
+                    before = next((p_ for p_ in (find_path(s0, lambda x: x is mut, avoid=lambda x: x in resets)
                                                  for s0 in [cfg.entry] + stops) if p_ is not None), None)
                 ctx.check(after is None or before is None, rid, m, mut,
                           f"cache_info keeps a report in `self.{fld}` between queries; `{norm(mut.ast)[:60]}` changes what it was "
@@ -771,11 +767,8 @@ def _key_signature(lc: LruClass, m, depth: int = 0):
 
 
 def _field_from_param(lc: LruClass, fld: str, pname: str) -> bool:
-    init = lc.info.methods["__init__"]
-    for n in own_nodes(init.node):
-        if isinstance(n, ast.Assign) and any(lc.is_self_attr(t, fld) for t in n.targets):
-            return isinstance(n.value, ast.Name) and n.value.id == pname
-    return False
+    held = lc.field_inits().get(fld)
+    return isinstance(held, ast.Name) and held.id == pname
 
 
 # --------------------------------------------------------------------------- R10.4
